@@ -81,8 +81,13 @@ Add(h) ==
           THEN /\ rcp' = [rcp EXCEPT ![h] = AddRule(rcp[h], rule)]
                /\ store' = [store EXCEPT ![h] = Mk(AddRule(rcp[h], rule))]
           ELSE UNCHANGED <<store, rcp>>
+\* add(rule) made for its result only: the caller goes on with the configurator it had (which add() leaves as it was)
+AddQ(h) ==
+  /\ IsCfg(store[h])
+  /\ \E rule \in RuleCat : hist' = Append(hist, [h |-> h, op |-> "add_q", d |-> EmptyFn, rule |-> rule])
+  /\ UNCHANGED <<store, rcp>>
 Next == /\ Len(hist) < MaxLen
-        /\ \E h \in Handles : (\E op \in Ops : DictCall(h, op) \/ PlainCall(h, op)) \/ ("add" \in Ops /\ Add(h))
+        /\ \E h \in Handles : (\E op \in Ops : DictCall(h, op) \/ PlainCall(h, op)) \/ ("add" \in Ops /\ Add(h)) \/ ("add_q" \in Ops /\ AddQ(h))
 Spec == Init /\ [][Next]_vars
 
 (* ---- properties -------------------------------------------------------------------------------- *)
